@@ -5,7 +5,7 @@
 (* step (last), the model time and what the specification expects after it   *)
 (* (who runs, who is ready, positions, alerts in memory, silences, the        *)
 (* notification log, the deliveries so far).  The harness performs the       *)
-(* ENVIRONMENT steps (start, stop, kill, post, silence, expire) on real       *)
+(* ENVIRONMENT steps (start, stop, kill, post, silence, expire, reload) on    *)
 (* app.App instances through their HTTP API in real time and treats the      *)
 (* program's own steps as synchronisation points (ready: wait for the         *)
 (* cluster status; dedup with sends = TRUE: wait for that webhook delivery).  *)
@@ -21,12 +21,13 @@ Calm == EarlyPost \/ \A i \in Up : rdy[i]
 IA == Up \X Alerts
 
 Obs == [e |-> last', now |-> now', life |-> life', rdy |-> rdy', pos |-> pos', has |-> has', sv |-> sv',
-        nfl |-> nfl', snapN |-> snapN', snapS |-> snapS', sent |-> [k \in 1 .. Len(sent') |-> [i |-> sent'[k].i, a |-> sent'[k].a, t |-> sent'[k].t]],
-        healthy |-> healthy']
+        nfl |-> nfl', snapN |-> snapN', snapS |-> snapS',
+        sent |-> [k \in 1 .. Len(sent') |-> [i |-> sent'[k].i, a |-> sent'[k].a, c |-> sent'[k].c, t |-> sent'[k].t]],
+        healthy |-> healthy', cfg |-> cfg', api |-> api', inforce |-> inforce']
 Obs0 == [e |-> [op |-> "init", inst |-> Inst, initup |-> InitUp, alerts |-> Alerts, gw |-> GW, gi |-> GI, ri |-> RI,
-                pt |-> PT, st |-> ST, mint |-> MinT, maint |-> Maint, rule |-> Rule],
+                pt |-> PT, st |-> ST, mint |-> MinT, maint |-> Maint, rule |-> Rule, cfgs |-> Cfgs, initcfg |-> InitCfg],
          now |-> 0, life |-> life, rdy |-> rdy, pos |-> pos, has |-> has, sv |-> sv, nfl |-> nfl, snapN |-> snapN, snapS |-> snapS, sent |-> << >>,
-         healthy |-> TRUE]
+         healthy |-> TRUE, cfg |-> cfg, api |-> api, inforce |-> inforce]
 
 GenInit == Init /\ hist = <<Obs0>>
 
@@ -39,6 +40,10 @@ GenEnv ==
   \/ (Gate(Pace) /\ Calm /\ \E q \in Pk({x \in IA : x[2] \notin has[x[1]]}) : Post({q[1]}, q[2]))
   \/ (Gate(Pace) /\ \E q \in Pk({x \in IA : sv[x[1]][x[2]] = 0}) : Silence(q[1], q[2]))
   \/ (Gate(Pace) /\ \E q \in Pk({x \in IA : sv[x[1]][x[2]] = 1}) : Expire(q[1], q[2]))
+  \/ (Gate(Pace) /\ \E i \in Pk(Up) : \E c \in Pk(Cfgs \ {cfg[i]}) : \E ov \in Pk(BOOLEAN) : Reload(i, c, "good", ov))
+  \/ (Gate(2 * Pace) /\ \E i \in Pk(Up) : \E c \in Pk(Cfgs \cap {cfg[i]}) : Reload(i, c, "good", FALSE))
+  \/ (Gate(Pace) /\ \E i \in Pk(Up) : \E c \in Pk(Cfgs \ {cfg[i]}) : Reload(i, c, "badapply", FALSE))
+  \/ (Gate(2 * Pace) /\ \E i \in Pk(Up) : \E c \in Pk(Cfgs \ {cfg[i]}) : Reload(i, c, "badload", FALSE))
 GenStep ==
   \/ (~Urgent /\ GenEnv)
   \/ \E i \in Pk({j \in Up : ~rdy[j] /\ upAt[j] + ST <= now}) : Ready(i)
